@@ -301,7 +301,7 @@ pub fn large_aborted(seed: u64, idx: u64) -> Scenario {
     sc.tree = TreeSpec { root: "root".into(), entries: vec![
         Entry { path: "root/large.bin".into(), kind: EntryKind::File(Content::Sparse { len, seed: rng.next() }) },
         Entry { path: "root/probe.txt".into(), kind: EntryKind::File(Content::Literal("probe\n".into())) },
-    ], mtime_mode: 0 };
+    ], mtime_mode: 0, meta_mode: 0 };
     let s = sites();
     let failing: Vec<usize> = (0..s.len()).filter(|&i| ["write_err", "write_zero_at_0", "write_zero_mid", "flush_epipe", "flush_eio", "client_gone_after_send", "handler_err"].contains(&s[i].0)).collect();
     for j in 0..k {
